@@ -265,8 +265,9 @@ def part_text(chk, quick, rnd, pool):
     conv = sorted((c for c in cases if c['conv']), key=lambda c: c['toks'])
     conv = rnd.sample(conv, min(len(conv), 8 if quick else 300))
     def some(plist, c):
-        # quick tier: every parameter tuple for texts up to 2 tokens, a seeded choice of 3 tuples for longer ones
-        return plist if not quick or len(c['toks']) <= 2 else rnd.sample(plist, 3)
+        # quick tier: every parameter tuple for texts up to 2 tokens and for texts without words (fixed corner set),
+        # a seeded choice of 3 tuples for the others
+        return plist if not quick or len(c['toks']) <= 2 or not c['text'].split() else rnd.sample(plist, 3)
     units = [('wrap', c['toks'], c['text'], some(wrap_p, c)) for c in cases]
     units += [('rst', c['toks'], c['text'], some(rst_p, c)) for c in cases if not c['conv']]
     convunits = [('rst', c['toks'], c['text'], conv_p) for c in conv]
